@@ -88,6 +88,7 @@ Inductive sop :=
 | SPages (k start maxr : N) (fs : list cfilt)       (* follow next_search_idx until it is null *)
 | SLookIdx (k idx : N)
 | SLookTime (k t : N)
+| SBad (kind : N)                    (* a command the server rejects (the harness knows the text): err reply, nothing else *)
 | SLookIdxAll (k n : N)              (* index= for every index 0..n *)
 | SLookTimeAll (k t0 step cnt : N). (* time lookups at t0 + j*step (us), j < cnt *)
 
@@ -264,6 +265,12 @@ Definition sess_step (sorted : bool) (file : list cmsg) (st0 : sess) (o : sop) :
       match apply sorted st [OLookupIdx (nth_id (ss_ids st) k) idx] with
       | Some (st1, [EReplyLookup _ (Some p)]) => (st1, T [L 0; L p])
       | Some (st1, _) => (st1, T [L 1])
+      | None => (st, o_panic)
+      end
+  | SBad _ =>
+      match apply sorted st [OReject] with
+      | Some (st1, [EErr]) => (st1, T [L 1])
+      | Some (st1, _) => (st1, T [L 0])
       | None => (st, o_panic)
       end
   | SLookIdxAll k n =>
